@@ -67,3 +67,7 @@ CLAIMS["C18"] = (
  "runtime monitor with reference models on package lib: RenderPatch / RenderMerge texts evaluated by independent RFC 6902 / RFC 7386 evaluators on a, and read back with the v1 readers and applied",
  "Held on every executed pair: list mode incl. integer-like and escaping-hostile keys and '/-' appends (random + all array pairs over {1,2,3} up to length 4 at three positions), merge mode on null-free differing pairs (random + exhaustive small family); the document {} read back as a no-op is the open known finding F18.",
  TB, "DESIGN.md 5.18")
+CLAIMS["C14"] = (
+ "runtime monitor of real processes against a CLI model: exit status, stdout bytes, -o file bytes, stdin-vs-file equivalence of v2/jd, jd and jd -v2=false compared with the documented flag -> library-call mapping; print-then-patch pipelines",
+ "Held on every executed run: all 640 diff-mode and 320 patch-mode flag combinations x 3 binaries x a panel of keyed / equal-as-sets / within-precision / differing pairs (3 quick, 25 thorough), translations from file and stdin, -git-diff-driver, and six error classes; patch-mode output equals the library rendering and reproduces b in jd, patch and merge formats, JSON and YAML.",
+ TB + "; the CLI model in props/c14.go", "DESIGN.md 5.14")
